@@ -542,4 +542,65 @@ func c14(c *eng.Ctx) {
 		sts := eng.StoresToField([]*ssa.Function{se}, tClusterInfo, "loadbalancer")
 		c.Check("R1", se, "balancer reset on server-set change", se.Pos(), len(sts) > 0, "cursors keyed by the old ready sets must be dropped when servers are added or removed")
 	}
+	// R2: nothing else disturbs a cursor while the ready set is stable
+	c.Rule("R2", "rotation is not disturbed: the cursor is modified only by the atomic increment of Pop (no store, swap or compare-and-swap on it), and the balancer map is replaced only by the constructor and by syncEndpoints on the edge where servers were added or removed", 2)
+	for _, pop := range popImpls(c) {
+		adds := eng.CallsTo(pop, "sync/atomic.AddUint64")
+		if len(adds) != 1 {
+			continue
+		}
+		cursor := eng.Args(adds[0])[0]
+		bad := ""
+		sl := c.Slicer()
+		fromLB := func(v ssa.Value) bool {
+			return v == cursor || sl.DerivesFrom(v, func(x ssa.Value) bool {
+				cc, _ := eng.CallResultOf(x)
+				return cc != nil && eng.IsCall(cc, "(*sync.Map).LoadOrStore", "(*sync.Map).Load") && eng.FieldAddrOf(eng.Receiver(cc), tClusterInfo, "loadbalancer")
+			})
+		}
+		for _, fn := range c.W.FuncsOf(pkgClusters) {
+			for _, ci := range eng.Calls(fn) {
+				if ci == adds[0] {
+					continue
+				}
+				if eng.IsCall(ci, "sync/atomic.StoreUint64", "sync/atomic.SwapUint64", "sync/atomic.CompareAndSwapUint64", "sync/atomic.AddUint64") && fromLB(eng.Args(ci)[0]) {
+					bad = shortName(eng.FullName(ci)) + " in " + eng.FuncName(fn)
+				}
+			}
+			eng.Instrs(fn, func(ins ssa.Instruction) {
+				if st, ok := ins.(*ssa.Store); ok && fromLB(st.Addr) {
+					bad = "plain store in " + eng.FuncName(fn)
+				}
+			})
+		}
+		c.Check("R2", pop, "cursor advanced only by the atomic increment", adds[0].Pos(), bad == "",
+			"a second writer of the cursor ("+bad+") races with concurrent pickers: e.g. a wrap-around compare-and-swap that loses the race resets the cursor at a non-multiple of k, so one endpoint is served twice per round")
+	}
+	for i, st := range eng.StoresToField(c.W.AllRepoFuncs(), tClusterInfo, "loadbalancer") {
+		fn := st.Parent()
+		ok := false
+		why := "the balancer map is replaced outside the constructor and syncEndpoints: cursors restart although the ready set is unchanged (e.g. on any policy or logging update), so the same endpoint is picked twice in a row"
+		switch {
+		case fn.Name() == "NewEmptyClusterInfo":
+			ok = true
+		case fn.Name() == "syncEndpoints" && eng.TypeName(fn.Signature.Recv().Type()) == tClusterInfo:
+			// unreachable when neither "added" nor "deleted" is non-empty: cut the true edges of every `X.Len() > 0` test
+			reach := eng.ReachFromEntry(fn, eng.PathQuery{
+				Target: func(x ssa.Instruction) bool { return x == ssa.Instruction(st) },
+				BlockEdge: func(from *ssa.BasicBlock, idx int) bool {
+					iff, isIf := from.Instrs[len(from.Instrs)-1].(*ssa.If)
+					if !isIf {
+						return false
+					}
+					r := eng.RelOf(iff.Cond, idx == 0)
+					cc, _ := eng.CallResultOf(r.X)
+					z, isZ := eng.IntConst(r.Y)
+					return cc != nil && eng.MethodNameIs(cc, "Len") && isZ && z == 0 && r.Op == token.GTR
+				},
+			})
+			ok = reach == nil
+			why = "the balancer map is replaced although no server was added or removed"
+		}
+		c.Check("R2", fn, fmt.Sprintf("balancer map replaced only on a server-set change#%d", i+1), st.Pos(), ok, why)
+	}
 }
